@@ -137,7 +137,10 @@ func runC12(c *engine.Ctx) {
 		}
 		return gen.Word(p, "str:"+pos)
 	}
-	o := &gen.Opts{T: p, Str: str, BigMaps: p.Draw(2, "cfg:bigmaps") == 1, Signature: true, NonStrEnv: p.Draw(3, "cfg:nonstr") == 2, Aliases: false}
+	// one run in three the step reaches the Agent inside a YAML pipeline, twice, the second copy written as
+	// aliases of anchored parts of the first: two steps of one document are still two steps
+	yamlMode := p.Draw(3, "cfg:via-yaml") == 2
+	o := &gen.Opts{T: p, Str: str, BigMaps: p.Draw(2, "cfg:bigmaps") == 1, Signature: true, NonStrEnv: p.Draw(3, "cfg:nonstr") == 2, Aliases: false, ShareSubtrees: yamlMode}
 	step := o.CommandStep()
 	step.Del("type")
 	// ---- matrix (own construction so the dimensions are known)
@@ -195,17 +198,56 @@ func runC12(c *engine.Ctx) {
 		}
 		step.Set("matrix", m)
 	}
-	src := step.ToJSON(func(n *gen.Node) []int { return p.Perm(len(n.Keys), "json:keyorder") })
-	c.Ev("job", len(src), tape.HashString(string(src)))
-
+	var src []byte
 	var cs pipeline.CommandStep
+	var sibling *pipeline.CommandStep
 	var err error
-	c.Guard("C12.panic", "UnmarshalJSON", func() { err = cs.UnmarshalJSON(src) })
-	if err != nil {
-		c.Probe("author_step_rejected")
-		c.Fingerprint(false, "rejected")
-		return
+	if yamlMode {
+		// containers under the step's keys that are not yet in a share group become anchors of their own
+		for i, v := range step.Vals {
+			nonEmpty := (v.Kind == gen.KMap && len(v.Keys) > 0) || (v.Kind == gen.KSeq && len(v.Seq) > 0)
+			inGroup := false
+			v.Walk("", func(_ string, x *gen.Node) {
+				if x.Share != 0 {
+					inGroup = true
+				}
+			})
+			if nonEmpty && !inGroup && p.Draw(2, "yaml:anchor-field") == 1 {
+				v.Share = 100000 + i
+			}
+		}
+		doc := gen.Map().Set("steps", gen.Seq(step, step.Clone()))
+		st := &gen.YAMLStyle{T: p, AllowFlow: p.Draw(2, "render:flow") == 1, Quote: p.Draw(2, "render:quote") == 1}
+		b, ok := doc.ToYAML(st)
+		if !ok {
+			yamlMode = false
+		} else {
+			src = b
+			pl, _ := parseDoc(c, "C12.panic", src)
+			var first *pipeline.CommandStep
+			if pl != nil && len(pl.Steps) == 2 {
+				first, _ = pl.Steps[0].(*pipeline.CommandStep)
+				sibling, _ = pl.Steps[1].(*pipeline.CommandStep)
+			}
+			if first == nil || sibling == nil {
+				c.Probe("author_step_rejected")
+				c.Fingerprint(false, "rejected")
+				return
+			}
+			cs = *first
+			c.ProbeN("yaml_aliases_between_the_two_copies", st.Aliases)
+		}
 	}
+	if !yamlMode {
+		src = step.ToJSON(func(n *gen.Node) []int { return p.Perm(len(n.Keys), "json:keyorder") })
+		c.Guard("C12.panic", "UnmarshalJSON", func() { err = cs.UnmarshalJSON(src) })
+		if err != nil {
+			c.Probe("author_step_rejected")
+			c.Fingerprint(false, "rejected")
+			return
+		}
+	}
+	c.Ev("job", yamlMode, len(src), tape.HashString(string(src)))
 	// ---- permutation
 	perm := pipeline.MatrixPermutation{}
 	mode := p.Draw(12, "perm:mode") // 0..7 setup combo, 8..9 adjustment, 10 missing dimension, 11 empty
@@ -279,6 +321,10 @@ func runC12(c *engine.Ctx) {
 	}
 
 	before := view.Dump(&cs)
+	var siblingBefore *gen.Node
+	if sibling != nil {
+		siblingBefore = view.Dump(sibling)
+	}
 	// ---- expected tree
 	anyUnknown := false
 	collision := false
@@ -350,6 +396,13 @@ func runC12(c *engine.Ctx) {
 	c.Guard("C12.panic", "InterpolateMatrixPermutation", func() { ierr = cs.InterpolateMatrixPermutation(perm) })
 	after := view.Dump(&cs)
 	c.Ev("interpolated", ierr != nil, len(perm))
+	if sibling != nil {
+		// whatever the outcome for this step, another step of the document is out of scope
+		if d, cp := gen.DiffClass(siblingBefore, view.Dump(sibling), "CommandStep", "CommandStep"); d != "" {
+			c.Fail("C12.other-step", cp, "InterpolateMatrixPermutation on one step changed ANOTHER step of the same pipeline (before vs after): %s\ndocument:\n%s", d, truncate(string(src), 1500))
+		}
+		c.Probe("sibling_step_checked")
+	}
 
 	classes := make([]string, 0, len(tokenClasses))
 	for k := range tokenClasses {
@@ -417,5 +470,5 @@ func runC12(c *engine.Ctx) {
 			sizeClass = 1
 		}
 	}
-	c.Fingerprint(usedTokenValue && keyTok && tokensReplaced > 0, strings.Join(classes, ","), usedTokenValue, sizeClass, zzverifsim.OrderHash)
+	c.Fingerprint(usedTokenValue && keyTok && tokensReplaced > 0, strings.Join(classes, ","), usedTokenValue, sizeClass, yamlMode, zzverifsim.OrderHash)
 }
